@@ -88,6 +88,12 @@ Theorem C06_randomsub_no_topic : forall s size m chosen r,
   aget (sm_topic m) (sr_tmap s) = None -> rs_recipients s size m chosen = Some r -> r = [].
 Proof. exact rs_no_topic. Qed.
 Print Assumptions C06_randomsub_recipients.
+(* a local-only publication goes to nobody under floodsub and randomsub alike *)
+Theorem C06_simple_local_only_sends_nothing : forall rand size s m s' rc tr,
+  srstep rand size s (RLocalOnly m) = Some (s', rc, tr) ->
+  rc = [] /\ (forall q, ~ In (TSend q) tr) /\ sr_peers s' = sr_peers s /\ sr_tmap s' = sr_tmap s /\ sr_joined s' = sr_joined s.
+Proof. exact local_only_sends_nothing. Qed.
+Print Assumptions C06_simple_local_only_sends_nothing.
 
 (* ---- non-vacuity ---- *)
 Local Close Scope Z_scope.
